@@ -214,9 +214,7 @@ def judge(sc, obs, i, fl, rec_hs, *, outer, sni, verify, backend, form, org, vio
                     ucn = org["cert"].get("cn")
                     key["upstream_cn_idna_encodable"] = ucn is None or to_alabel(ucn) is not None
             else:
-                key = {"where": where, "form": form or "?", "why": _why_class(rec_hs.get("why")),
-                       "confdir": sc.get("confdir", "default")}
-                key.update(upinfo)
+                key = {"where": where, "why": _why_class(rec_hs.get("why")), "confdir": sc.get("confdir", "default")}
             viol.append({"class": "client_handshake_failed", "key": key,
                          "msg": f"flow {i} ({where}): strict client asking for {sni!r} (verifying {verify!r}) could not "
                                 f"complete the handshake: {rec_hs.get('why')}; first crash: "
@@ -244,8 +242,7 @@ def judge(sc, obs, i, fl, rec_hs, *, outer, sni, verify, backend, form, org, vio
             and cert["cn"].lower() not in {str(v).lower() for _, v in allowed}:
         extra.append(("cn", cert["cn"]))
     if extra:
-        key = dict(base, kind=extra[0][0])
-        key.update(upinfo)
+        key = {"where": where, "kind": extra[0][0]}
         viol.append({"class": "foreign_name_in_certificate", "key": key,
                      "msg": f"flow {i} ({where}): certificate names {extra} which come neither from the SNI/local address, "
                             f"the server address nor the upstream certificate (allowed: {sorted(allowed)})"})
